@@ -111,3 +111,30 @@ func FirstWord(s string) string {
 	}
 	return strings.ToUpper(s[:j])
 }
+
+// DeepPanicSite returns the first frame inside the repository module below the LAST "panic(" line of a
+// recovered stack, i.e. the frame that raised the panic originally. Deferred functions that recover and
+// re-panic (planbuilder.(*Builder).Parse.func1, analyzer.replanJoin.func1, …) otherwise hide the site.
+func DeepPanicSite(stack string) string {
+	lines := strings.Split(stack, "\n")
+	last := -1
+	for i, l := range lines {
+		if strings.HasPrefix(l, "panic(") {
+			last = i
+		}
+	}
+	if last < 0 {
+		return "outside-repo"
+	}
+	const pre = "github.com/dolthub/go-mysql-server"
+	for _, l := range lines[last+1:] {
+		if strings.HasPrefix(l, pre) {
+			fn := l
+			if k := strings.LastIndex(fn, "("); k > 0 {
+				fn = fn[:k]
+			}
+			return strings.TrimPrefix(strings.TrimPrefix(fn, pre), "/")
+		}
+	}
+	return "outside-repo"
+}
